@@ -13,5 +13,6 @@ def scenarios(tier):
     quick = [1, 3, 5, 10]
     for r in (quick if tier == 'quick' else sorted(RECLS)):
         n = 3 if tier == 'quick' else 4
+        if r in (3, 4): n -= 1          # hazard_eras: longer sequences reach operations the engine cannot enumerate (inconclusive)
         s.append(Scenario('guard-algebra-%s-n%d' % (RECLS[r], n), 'C15/guard_algebra.cpp', ['RECL=%d' % r, 'HPK=5', 'NOPS=%d' % n], unwind=4, cover=[1, 2]))
     return s
